@@ -38,9 +38,9 @@ def script_of(stream, schedule):
     return evs
 
 
-def observe(stream, schedule, op, nops, fire=0, skip=0):
+def observe(stream, schedule, op, nops, fire=0, skip=0, trace=0):
     """Run `op` repeatedly; returns (results without timeouts up to the first ConnClosed, full line, sock)."""
-    sc = {"fire": fire, "skip": skip, "script": script_of(stream, schedule), "keys": KEYS, "ops": [op] * nops}
+    sc = {"fire": fire, "skip": skip, "script": script_of(stream, schedule), "keys": KEYS, "ops": [op] * nops, "trace": trace}
     line, s = wsrun.run_impl(sc)
     return sc, line, s
 
